@@ -134,7 +134,7 @@ def judge_thr(ctx: Ctx, spec: Any, n: int, nest: bool, out: Any, raised: bool) -
 # ---------------------------------------------------------------------------------------
 # threshold workload
 # ---------------------------------------------------------------------------------------
-SCALARS = [2, 0.5, "a", None]
+SCALARS = [2, 0.5, "a", "0.5", None]
 
 
 def inner_lists(n: int) -> List[Any]:
@@ -142,7 +142,7 @@ def inner_lists(n: int) -> List[Any]:
     for k in range(0, n + 2):
         out.append([1.0 + i for i in range(k)])
         for pos in range(k):
-            for bad in ("x", None):
+            for bad in ("x", "1.5", None):
                 lst: List[Any] = [1.0 + i for i in range(k)]
                 lst[pos] = bad
                 out.append(lst)
@@ -151,8 +151,8 @@ def inner_lists(n: int) -> List[Any]:
 
 
 def threshold_specs(n: int) -> List[Tuple[str, Any]]:
-    elems = [("num", 3), ("float", 0.25), ("str", "a"), ("none", None)] + [("inner", x) for x in inner_lists(n)]
-    specs: List[Tuple[str, Any]] = [("scalar", s) for s in SCALARS] + [("scalar_list_dev", x) for _, x in elems[4:]]
+    elems = [("num", 3), ("float", 0.25), ("str", "a"), ("none", None), ("numstr", "2.5")] + [("inner", x) for x in inner_lists(n)]
+    specs: List[Tuple[str, Any]] = [("scalar", s) for s in SCALARS] + [("scalar_list_dev", x) for _, x in elems[5:]]
     bases: List[Tuple[str, Any]] = [("flat", 1.5)] + [(f"nested{j}", [2.0 + i for i in range(j)]) for j in range(0, n + 2)]
     for L in range(0, n + 2):
         for bname, b in bases:
@@ -234,7 +234,7 @@ def base_config(task: str) -> Tuple[Dict[str, Any], str]:
     return cfg, frame
 
 
-CORRUPT = ["x", None, [], ["a", "b", "c"], [1.0, 2.0], [[1.0], ["b"]], {"a": 1}, [1.0, 2.0, 3.0, 4.0], -1]
+CORRUPT = ["x", None, [], ["a", "b", "c"], ["1.0", "2.0", "3.0"], [[1.0, "2.0", 3.0]], [1.0, 2.0], [[1.0], ["b"]], {"a": 1}, [1.0, 2.0, 3.0, 4.0], -1]
 
 
 def edits_for(cfg: Dict[str, Any], task: str) -> List[Tuple[str, Any]]:
@@ -413,7 +413,7 @@ def drive_configs(ctx: Ctx) -> None:
         labels = r.sample(["car", "bicycle", "pedestrian", "truck", "bus"], r.randint(1, 4))
         n = len(labels)
         all_valid = r.random() < 0.4  # every per-label list holds exactly one number per target label of THIS config
-        pick = (lambda: [round(r.uniform(1.0, 90.0), 1) for _ in range(n)]) if all_valid else (lambda: r.choice([[1.0] * n, [1.0] * (n + 1), [1.0], [], 2.0, ["a"] * n, None, [[1.0] * n]]))  # noqa: E731
+        pick = (lambda: [round(r.uniform(1.0, 90.0), 1) for _ in range(n)]) if all_valid else (lambda: r.choice([[1.0] * n, [1.0] * (n + 1), [1.0], [], 2.0, ["a"] * n, ["1.5"] * n, None, [[1.0] * n]]))  # noqa: E731
         kw = dict(target_labels=labels, max_x_position_list=pick(), max_y_position_list=pick(), max_distance_list=pick() if r.random() < 0.3 else None, min_distance_list=pick() if r.random() < 0.3 else None, min_point_numbers=pick(), confidence_threshold_list=pick())
         ctx.begin_case("frame_configs", i, kw=jsonable(kw))
         try:
